@@ -22,8 +22,8 @@ ANCHOR_FILES = ["src/ropt/ensemble_evaluator/_gradient.py", "src/ropt/ensemble_e
 RULE = ("case = generated affine ensemble + configuration, run on the combined and the split path; non-trivial if gradients were reported and the conditioning "
         "premise held for every contributing realization (merged: premise of the statement after failures); distinct key = (case index, path)")
 ASSUMPTIONS = ["merged estimation is only judged when realizations are identical, or perturbations are shared and no individual perturbation of a contributing realization failed"]
-REQUIRED = {"quick": {"grad_entries_compared": 3808, "fixed_entries_zero_checked": 1500, "merged_judged": 150, "stddev_judged": 200, "with_failed_perturbations_judged": 100, "filtered_judged": 150, "with_variable_scaling_judged_candidates": 400, "__nontrivial__": 1056},
-            "thorough": {"grad_entries_compared": 111514, "fixed_entries_zero_checked": 40000, "merged_judged": 4000, "stddev_judged": 5000, "with_failed_perturbations_judged": 3000, "filtered_judged": 4000, "with_variable_scaling_judged_candidates": 12000, "__nontrivial__": 30000}}
+REQUIRED = {"quick": {"grad_entries_compared": 3808, "fixed_entries_zero_checked": 1500, "merged_judged": 150, "stddev_judged": 200, "with_failed_perturbations_judged": 100, "filtered_judged": 150, "with_variable_scaling_judged_candidates": 400, "moved_point_functions_recomputed": 1000, "__nontrivial__": 1056},
+            "thorough": {"grad_entries_compared": 111514, "fixed_entries_zero_checked": 40000, "merged_judged": 4000, "stddev_judged": 5000, "with_failed_perturbations_judged": 3000, "filtered_judged": 4000, "with_variable_scaling_judged_candidates": 12000, "moved_point_functions_recomputed": 30000, "__nontrivial__": 30000}}
 N = {"quick": 2000, "thorough": 60000}
 RTOL = 1e-6
 
@@ -310,11 +310,39 @@ def run_case(case, obs):
         obs.feature("mask")
     if spec.get("lb") is not None:
         obs.feature("bounds")
-    for path in ("combined", "split"):
+    for path in ("combined", "split", "split_moved"):
         ev = ens.RecordingEvaluator(spec)
         ee = EnsembleEvaluator(cfg, T, ev, pm)
         try:
-            if path == "combined":
+            if path == "split_moved":
+                # history: a function request at another point, then a gradient-only request at x.  The gradient has to
+                # be the gradient at x computed from function values at x, however close the earlier point was.
+                how = ("near", "tiny", "far")[int(rng.integers(3))]
+                sgn = rng.choice([-1.0, 1.0], size=x.size)
+                if how == "near":
+                    delta = sgn * 0.9e-5 * np.abs(x)
+                elif how == "tiny":
+                    delta = sgn * 1e-13
+                else:
+                    delta = sgn * rng.uniform(0.1, 1.0, size=x.size)
+                (fres0,) = ee.calculate(x - delta, compute_functions=True, compute_gradients=False)
+                if fres0.functions is None:
+                    obs.count("trivial.split_functions_missing")
+                    continue
+                out = ee.calculate(x, compute_functions=False, compute_gradients=True)
+                gres = out[-1]
+                c0, c1 = ev.calls[0], ev.calls[1]
+                allv = c1.objectives if n_con == 0 else np.hstack([c1.objectives, c1.constraints])
+                if allv.shape[0] == R + R * P:
+                    fvals, pvals = allv[:R], allv[R:].reshape(R, P, F)
+                    obs.count("moved_point_functions_recomputed")
+                else:
+                    # function values of the other point were re-used: the gradient below is judged all the same
+                    fvals = c0.objectives if n_con == 0 else np.hstack([c0.objectives, c0.constraints])
+                    pvals = allv.reshape(R, P, F)
+                    obs.count("moved_point_functions_reused")
+                obs.count("moved_point." + how)
+            elif path == "combined":
                 fres, gres = ee.calculate(x, compute_functions=True, compute_gradients=True)
                 c = ev.calls[0]
                 allv = c.objectives if n_con == 0 else np.hstack([c.objectives, c.constraints])
